@@ -7,7 +7,9 @@ import (
 )
 
 func (vt *Model) handleMouse(msg vaxis.Mouse) string {
-	if !vt.mode.mouseButtons && !vt.mode.mouseDrag && !vt.mode.mouseMotion && !vt.mode.mouseSGR {
+	// SGR mode (1006) only selects the encoding of the reports, it doesn't
+	// enable them
+	if !vt.mode.mouseButtons && !vt.mode.mouseDrag && !vt.mode.mouseMotion {
 		if vt.mode.altScroll && vt.mode.smcup {
 			// Translate wheel motion into arrows up and down
 			// 3x rows
@@ -28,8 +30,9 @@ func (vt *Model) handleMouse(msg vaxis.Mouse) string {
 	if !vt.mode.mouseMotion && msg.EventType == vaxis.EventMotion && msg.Button == vaxis.MouseNoButton {
 		return ""
 	}
-	// Return early if we aren't reporting drags
-	if !vt.mode.mouseDrag && msg.EventType == vaxis.EventMotion {
+	// Return early if we aren't reporting drags. Motion with a button held is
+	// reported in button-event mode (1002) and in any-event mode (1003)
+	if !vt.mode.mouseDrag && !vt.mode.mouseMotion && msg.EventType == vaxis.EventMotion {
 		return ""
 	}
 
